@@ -331,6 +331,27 @@ func init() {
 			out.Err = "non-nil"
 		}
 	}
+	// lateprobe: print a value of the type this run registered as safe
+	// right before the tasks started. Once RegisterSafeType has returned,
+	// every print call must treat the type as safe, whatever other
+	// goroutines are doing; judged in the simulated execution only (the
+	// reference execution runs before the registration).
+	opKinds["lateprobe"] = func(e *env, op *Op, out *Outcome) {
+		v := lateRegValue()
+		var s string
+		if op.N == 1 {
+			s = string(redact.Sprintf("p=%v|%d", v, v))
+		} else {
+			s = string(redact.Sprint(v))
+		}
+		if e.t == nil || e.plan.Cfg.LateReg == 0 {
+			return
+		}
+		e.stats.Extra["late_registration_probes"]++
+		if strings.Contains(s, mStart) || strings.Contains(s, mEnd) {
+			out.Checks = append(out.Checks, "C12/registered-safe-type-printed-unsafe: a value of a type registered with RegisterSafeType before the tasks started was printed as "+s)
+		}
+	}
 	opKinds["join"] = func(e *env, op *Op, out *Outcome) {
 		var parts []redact.RedactableString
 		for i := range op.A {
